@@ -378,6 +378,11 @@ pub fn exercise(t: &mut Tracer, s: &ReqSpec, rng: &mut StdRng, nsched: usize, ch
                 }
             }
         }
+        let reports_ready = b2.sut.ready().unwrap_or(false);
+        if acc.len() != reference.len() && (reports_ready || acc.len() > reference.len()) {
+            // the flow says the head is complete (or wrote more than the reference head): judge what is on the wire
+            ev_head(t, &acc, &reference, "na");
+        }
         if acc.len() == reference.len() {
             // calls made after the head is complete
             if !matches!(b2.sut, Sut::CallWith(_)) {
@@ -505,6 +510,10 @@ pub fn c16(o: &Opts, t: &mut Tracer) -> Value {
                 have_cl = true;
             }
             added.push((n.to_string(), v.to_vec()));
+            if k == 1 && i % 3 == 0 {
+                // a long row followed by short ones: a small buffer has room for a later row but not for this one
+                added.push(("cookie".into(), payload(40 + i % 90, 16).iter().map(|b| b'a' + (b % 26)).collect()));
+            }
         }
         let hops: Vec<(u16, String)> = (0..depth).map(|d| (302u16, ["/next", "http://b.test/x", "https://h.test/s", "../up?q=1"][(i + d) % 4].to_string())).collect();
         // send-body-despite-method on the (bodiless) request that is finally sent, before or after adding the headers
@@ -518,7 +527,7 @@ pub fn c16(o: &Opts, t: &mut Tracer) -> Value {
         if depth > 0 && nadd > 0 {
             t.class("c16:added-on-redirected");
         }
-        exercise(t, &s, &mut rng, if o.quick() { 2 } else { 4 }, depth == 0, "c16");
+        exercise(t, &s, &mut rng, if o.quick() { 5 } else { 8 }, depth == 0, "c16");
     }
     json!({})
 }
